@@ -8,7 +8,9 @@ package main
 //
 // Flags of a node: h = keep the inherited stdout/stderr open (the others redirect both to /dev/null;
 // the root always keeps them), i = ignore SIGTERM, x = exit as soon as its own subtree has registered
-// (leaving its children running), s = setsid() first (leaves the group: exempt from the property).
+// (leaving its children running), s = setsid() first (leaves the group: exempt from the property),
+// e = once its subtree has registered (and, for the root, readiness was announced) the node replaces itself by
+// another program (`exec sleep`): same pid, same group, same streams, another name.
 
 import (
 	"encoding/json"
@@ -152,7 +154,7 @@ func ptreeMain(args []string) {
 	st := selfStat()
 	appendRegistry(registry, regEntry{Gen: gen, ID: id, Pid: st.Pid, Pgid: st.Pgrp, Sid: st.Sid, StartTime: st.StartTime, Flags: n.F})
 
-	if isRoot || n.has('x') {
+	if isRoot || n.has('x') || n.has('e') {
 		var want []string
 		n.ids(id, &want)
 		if !waitRegistered(registry, gen, want) {
@@ -164,6 +166,10 @@ func ptreeMain(args []string) {
 		}
 		if n.has('x') {
 			os.Exit(0)
+		}
+		if n.has('e') {
+			// a launcher handing over to the real program
+			_ = syscall.Exec("/bin/sleep", []string{"sleep", "150"}, os.Environ())
 		}
 	}
 	// "sleep 600": far longer than any bound of the monitor. The node leaves as soon as the registry
